@@ -396,4 +396,119 @@ pub fn send_to_gui(message: &str) {
 
         let target_square""",
      """        let target_square""", "R2.5", "king cache never updated for king moves (kills tests? control)"),
+
+    # ---------------- pseudo-move generators (C01 / C13)
+    ("C13", "knight-captures-only-pushes-empty", MG,
+     """            if move_generation_mode == MoveGenerationMode::CapturesOnly {
+                if !square.is_empty() {
+                    moves.push(Point(row, col));
+                }
+            } else {
+                moves.push(Point(row, col));
+            }
+        }
+    }
+}
+
+/*
+    Generate pseudo-legal moves for a pawn""",
+     """            moves.push(Point(row, col));
+        }
+    }
+}
+
+/*
+    Generate pseudo-legal moves for a pawn""", "R13.2", "quiet knight moves in capture-only generation"),
+    ("C13", "castling-in-captures-only", MG,
+     """    if move_gen_mode == MoveGenerationMode::AllMoves {
+        generate_castling_moves(board, &mut new_moves, zobrist_hasher);
+    }""",
+     """    generate_castling_moves(board, &mut new_moves, zobrist_hasher);""", "R1.6", "castling offered as a capture"),
+    ("C13", "rook-walk-pushed-in-captures-only", MG,
+     """        while square.is_empty() {
+            if move_generation_mode == MoveGenerationMode::AllMoves {
+                moves.push(Point(row as usize, col as usize));
+            }
+            row += r;
+            col += c;
+            square = board.board[row as usize][col as usize];
+        }
+
+        if square.is_color(piece.color.opposite()) {
+            moves.push(Point(row as usize, col as usize));
+        }
+    }
+}
+
+/*
+    Generate pseudo-legal moves for a bishop""",
+     """        while square.is_empty() {
+            moves.push(Point(row as usize, col as usize));
+            row += r;
+            col += c;
+            square = board.board[row as usize][col as usize];
+        }
+
+        if square.is_color(piece.color.opposite()) {
+            moves.push(Point(row as usize, col as usize));
+        }
+    }
+}
+
+/*
+    Generate pseudo-legal moves for a bishop""", "R1.4", "quiet rook moves in capture-only generation"),
+    ("C01", "white-pawn-captures-any-piece", MG,
+     """            if let Square::Full(Piece { color: Black, .. }) = right_cap {
+                moves.push(Point(row - 1, col + 1));
+            }""",
+     """            if let Square::Full(_) = right_cap {
+                moves.push(Point(row - 1, col + 1));
+            }""", "R1.5", "white pawn captures its own pieces to the right"),
+    ("C01", "ep-from-wrong-rank", MG, """            Black if row == BOARD_START + 4 => {""", """            Black if row >= BOARD_START + 4 => {""", "R1.5e", "black en passant from any rank beyond the fifth"),
+    ("C01", "bishop-direction-typo", MG, """    for (r, c) in &[(1, -1), (1, 1), (-1, 1), (-1, -1)] {
+        let mut row = row as i8 + r;
+        let mut col = col as i8 + c;
+        let mut square = board.board[row as usize][col as usize];
+        while square.is_empty() {
+            if move_generation_mode""", """    for (r, c) in &[(1, -1), (1, 1), (-1, 1), (-1, 1)] {
+        let mut row = row as i8 + r;
+        let mut col = col as i8 + c;
+        let mut square = board.board[row as usize][col as usize];
+        while square.is_empty() {
+            if move_generation_mode""", "R1.4", "one bishop diagonal generated twice, one never"),
+    ("C01", "king-neighbourhood-short", MG, """    for i in 0..3 {
+        let row = row + i - 1;
+        for j in 0..3 {""", """    for i in 0..3 {
+        let row = row + i - 1;
+        for j in 0..2 {""", "R13.2", "king never moves to the right"),
+    ("C06", "attack-bishop-vs-rook", MG, """        if square == attacking_bishop || square == attacking_queen {
+            return true;
+        }""", """        if square == attacking_rook || square == attacking_queen {
+            return true;
+        }""", "R6.2", "diagonal attackers compared with the rook"),
+    ("C06", "attack-walk-through-own-pieces", MG, """        let mut square = board.board[row as usize][col as usize];
+        while square.is_empty() {
+            row += r;
+            col += c;
+            square = board.board[row as usize][col as usize];
+        }
+
+        if square == attacking_rook || square == attacking_queen {""", """        let mut square = board.board[row as usize][col as usize];
+        while square.is_empty() || square.is_color(color) {
+            row += r;
+            col += c;
+            square = board.board[row as usize][col as usize];
+        }
+
+        if square == attacking_rook || square == attacking_queen {""", "R6.3", "rook rays see through the defender's own pieces"),
+    ("C06", "pawn-attack-row-swapped", MG, """        White => square_cords.0 - 1,
+        Black => square_cords.0 + 1,
+    };""", """        White => square_cords.0 + 1,
+        Black => square_cords.0 - 1,
+    };""", "R6.2", "pawns attack backwards (killed by tests; control)"),
+    ("C06", "king-manhattan", MG, """    (enemy_king.0 as i8 - square_cords.0 as i8).abs() <= 1
+        && (enemy_king.1 as i8 - square_cords.1 as i8).abs() <= 1""", """    (enemy_king.0 as i8 - square_cords.0 as i8).abs() + (enemy_king.1 as i8 - square_cords.1 as i8).abs() <= 1""", "R6.4", "diagonal king contact not seen"),
+    ("C06", "is_check-wrong-king", MG, """        White => is_check_cords(board, White, board.white_king_location),
+        Black => is_check_cords(board, Black, board.black_king_location),""", """        White => is_check_cords(board, White, board.white_king_location),
+        Black => is_check_cords(board, Black, board.white_king_location),""", "R6.1", "black's check status probed on the white king square (killed by tests; control)"),
 ]
